@@ -58,10 +58,11 @@ class NameEval:
     """concrete evaluation of an identifier term for one (kind, sample name, normalization) scenario; anything the
     evaluator does not model gives UNK"""
 
-    def __init__(self, kind, sample, norm, choice=None):
+    def __init__(self, kind, sample, norm, choice=None, leaf_any=False):
         self.kind, self.sample, self.norm = kind, sample, norm
         self.choice = choice or {}
         self.memo = {}
+        self.leaf_any = leaf_any      # every data leaf (parameter, pattern binding, any record field) stands for the sample
 
     def ev(self, t, depth=0):
         if depth > 80 or not isinstance(t, tuple) or not t:
@@ -86,6 +87,10 @@ class NameEval:
                 return {UNK} if vs else set()
             return {v if v == UNK else f(v) for v in vs}
         if tag == 'argvar':
+            return {self.sample}
+        if self.leaf_any and tag in ('param', 'cparam', 'cproj', 'tproj', 'sel', 'unknown'):
+            return {self.sample}
+        if self.leaf_any and tag == 'field' and not (isinstance(t[3], str) and t[3] == 'normalization'):
             return {self.sample}
         if tag == 'field':
             adt = t[2].split('::')[-1] if isinstance(t[2], str) else ''
@@ -575,6 +580,45 @@ def rule_default_literal(ctx):
                     good += 1
                 else:
                     problems.append(' '.join(str(x) for x in text)[:80])
+            # the variant identifier is spelled like the variants of the generated enum (same normalizer, same escape)
+            if not problems and good:
+                def_terms = []
+                for it_ in ctx.all_items():
+                    if it_.kind != 'enum':
+                        continue
+                    for v_ in it_.variants:
+                        if isinstance(v_.name, dict) and v_.name.get('term') is not None and 'StoredEnum.variants' in TM.fields_in(v_.name['term']):
+                            def_terms.append(v_.name['term'])
+                ref_terms = []
+                for l in tm:
+                    toks = []
+                    _toks(ctx.ex.expand(l[1], l[2]), toks)
+                    for i, t_ in enumerate(toks):
+                        if i >= 2 and toks[i - 1].get('s') == '::' and t_.get('t') == 'leaf' and t_.get('kind') == 'ident' and t_.get('term') is not None \
+                                and toks[i - 2].get('t') == 'leaf' and 'StoredEnum' in _kinds_in(toks[i - 2].get('term') or ()):
+                            ref_terms.append(t_['term'])
+                mism = None
+                if def_terms and ref_terms:
+                    for sample in ('ID', '__typeKind', 'fooBar', 'LOUD_NAME', 'snake_name', 'Plain'):
+                        for norm in ('None', 'Rust'):
+                            want = set()
+                            for dt in def_terms[:1]:
+                                want |= NameEval('*', sample, norm, leaf_any=True).ev(dt)
+                            got = set()
+                            for rt in ref_terms:
+                                got |= NameEval('*', sample, norm, leaf_any=True).ev(rt)
+                            if UNK in want or UNK in got or not want or not got:
+                                continue
+                            if not (got & want):
+                                mism = (sample, norm, sorted(got), sorted(want))
+                                break
+                        if mism:
+                            break
+                if mism:
+                    obs.append(bad('DEFAULT-LITERAL', inst + '/variant', 'for the enum value `%s` under normalization=%s the default literal names the variant %s but the enum defines %s' % mism, loc,
+                                   'the default_<var>() constructor names a variant the generated enum does not have (E0599)'))
+                elif def_terms and ref_terms:
+                    obs.append(ok('DEFAULT-LITERAL', inst + '/variant', 'the variant identifier is spelled like the variants of the generated enum (sample values, both normalizations)', loc))
             if problems or not good:
                 obs.append(bad('DEFAULT-LITERAL', inst, 'an enum default value is rendered as `%s`, not as a path into the generated enum' % (problems[0] if problems else '?'), loc,
                                'the default_<var>() constructor does not type-check (E0308)'))
